@@ -30,7 +30,7 @@ func init() {
 			"(b) every store to a field of query.FileInfo (directly or via a callee that writes its FileInfo/view parameter) writes an object that is provably private: allocated by this function, obtained from a FileInfo constructor, reached through a view whose FileInfo field this function assigned from such a value, or guarded by IsUpdatable()==false (kinds that are never cached) — View.Copy shares the FileInfo pointer with the cache, so any other write changes the cached table",
 		Controls: []string{"CtlMutateRawView", "CtlMutateRawViaCallee", "CtlRawViewEscapes", "CtlSharedFileInfoWrite", "CtlFileInfoWriteAfterReassign", "CtlWriteAfterMixedLoader:", "CtlWriteAfterMixedLoaderPlain"},
 		Run:      ruleIso1})
-	Register(&Rule{ID: "R-ISO-2", Props: []string{"C08", "C20", "C03"}, Floor: 13,
+	Register(&Rule{ID: "R-ISO-2", Props: []string{"C08", "C20", "C03", "C14"}, Floor: 13,
 		Doc:      "every *View returned by ViewMap.Get, ViewMap.GetWithInternalId, InlineTableMap.Get, Session.GetStdinView (and GetTemporaryTable*/GetInlineTable built on them) is nil or the result of (*View).Copy (possibly through another such accessor); every element read of an InlineTableMap and every read of ReferenceScope.RecursiveTmpView is used only as the receiver of Copy, in a nil test, or to hand the same reference to a child scope",
 		Controls: []string{"CtlAccessorReturnsRaw", "CtlInlineTableRaw", "CtlRecursiveTmpViewRaw"},
 		Run:      ruleIso2})
